@@ -907,3 +907,86 @@ _jobs_union = jobs
 
 def jobs(tier):
     return _jobs_union(tier) + [(h_tuple_index, (k, nx), 900) for k in ((0, 2) if tier == 'quick' else (0, 1, 2, 3)) for nx in range(-1, k)]
+
+
+@guard
+def h_tuple_endtuple(pattern):
+    """TupleBuilder::endtuple with an open tuple and no field builder active; field i holds length_ (not filled: pattern 0), length_ + 1 (filled
+    once: 1) or length_ + 2 (filled twice: 2) entries: a field filled more than once is refused; otherwise every field that was not filled
+    receives exactly one None, all fields end with one entry per closed tuple, the tuple count grows by one and the tuple is closed"""
+    from .cpp01 import struct_of
+    k = len(pattern)
+    slots, nslots = builder_slots()
+    mod = module_of(TB)
+    fo, sz, al, fields = mod.types.struct_layout(struct_of(mod, '_ZN7awkward12TupleBuilder5indexEl'))
+    stubs = dict(COMMON_STUBS)
+    stubs.update(_child_stubs(slots))
+    stubs['_ZNSt7__cxx119to_stringEm'] = nodeh.s_empty_string
+    m = MCtx([TB, GB], unwind=k + 8, stubs=stubs)
+    m.record('fakevt', {8 * j: (Ptr(('func', 'vf$slot%d' % j), 0), 8) for j in range(nslots)}, const=True)
+    length = m.bv('length')
+    m.assume(length >= 0, length <= 2 ** 40)
+    cells = {}
+    for i in range(k):
+        m.record('kid%d' % i, {0: (Ptr('fakevt', 0), 8), 8: (NULL, 8), 16: (NULL, 8), 32: (length + pattern[i], 8)})
+        cells[16 * i] = (Ptr('kid%d' % i, 0), 8); cells[16 * i + 8] = (NULL, 8)
+    m.record('kidsbuf', cells, const=True)
+    m.record('ctrl', {0: (NULL, 8), 8: (z3.BitVecVal(1, 32), 4), 12: (z3.BitVecVal(1, 32), 4)})
+    st0 = State({}, m.mem, z3.BoolVal(True))
+    vt = m.eng.global_ptr(st0, '@_ZTVN7awkward12TupleBuilderE', mod)
+    nb = 16 * k
+    tb = {0: (Ptr(vt.obj, 16), 8), 8: (Ptr('tb', 0), 8), 16: (Ptr('ctrl', 0), 8), fo[1]: (BV(8), 8), fo[1] + 8: (z3.FPVal(1.5, z3.Float64()), 8),
+          fo[2]: (Ptr('kidsbuf', 0) if k else NULL, 8), fo[2] + 8: (Ptr('kidsbuf', nb) if k else NULL, 8), fo[2] + 16: (Ptr('kidsbuf', nb) if k else NULL, 8),
+          fo[3]: (length, 8), fo[4]: (z3.BitVecVal(1, 8), 1), fo[5]: (BV(-1), 8)}
+    this = m.record('tb', tb)
+    m.record('ret', {})
+    out = m.call('_ZN7awkward12TupleBuilder8endtupleEv', [Ptr('ret', 0), this])
+    over = any(p == 2 for p in pattern)
+    obls = [('raises exactly when a field was filled more than once', z3.simplify(out.raised) != z3.BoolVal(over))]
+    if not over:
+        o = out.mem.o
+        obls += [('the tuple count grows by one', o['tb'].cells[fo[3]][0] != length + 1), ('the tuple is closed', o['tb'].cells[fo[4]][0] != 0)]
+        for i in range(k):
+            obls.append(('field %d ends with one entry per closed tuple' % i, o['kid%d' % i].cells[32][0] != length + 1))
+        nulls = [(pc, nm, a) for pc, nm, a in out.trace]
+        obls.append(('exactly the unfilled fields receive a value (None), once', z3.BoolVal(len(nulls) != sum(1 for p in pattern if p == 0))))
+
+    def replay(model, ent_):
+        import subprocess, os
+        L = min(model.eval(length, model_completion=True).as_signed_long(), 1000)
+        drv = NATIVE_PREFIX.replace('#include "awkward/builder/GrowableBuffer.h"', '#include "awkward/builder/GrowableBuffer.h"\n#include "awkward/builder/TupleBuilder.h"') + r'''
+int main(int argc, char** argv) {
+  int k = atoi(argv[1]); long long L = atoll(argv[2]);
+  ArrayBuilderOptions opts(8, 1.5);
+  std::vector<BuilderPtr> kids; std::vector<int> pat; bool over = false;
+  for (int i = 0; i < k; i++) { pat.push_back(atoi(argv[3 + i])); over = over || pat[i] == 2; kids.push_back(std::make_shared<Count>(L + pat[i])); }
+  std::shared_ptr<TupleBuilder> t = std::make_shared<TupleBuilder>(opts, kids, L, true, -1);
+  bool raised = false;
+  try { t->endtuple(); } catch (std::invalid_argument& e) { raised = true; }
+  int bad = 0;
+  if (raised != over) bad |= 1;
+  if (!raised) { if (t->length_ != L + 1 || t->begun_) bad |= 2; for (int i = 0; i < k; i++) if (t->contents_[i]->length() != L + 1) bad |= 4; }
+  printf("bad=%d raised=%d\n", bad, (int)raised);
+  return bad ? 1 : 0;
+}
+'''
+        try:
+            exe = fullnative_link(drv)
+        except Exception as e:      # noqa
+            return False, 'replay driver did not build: %s' % str(e)[-600:], {}
+        r = subprocess.run([exe, str(k), str(L)] + [str(p_) for p_ in pattern], capture_output=True, text=True, timeout=30,
+                           env=dict(os.environ, ASAN_OPTIONS='detect_leaks=0', UBSAN_OPTIONS='halt_on_error=1:exitcode=87'), errors='replace')
+        payload = dict(pattern=list(pattern), length=L, native=r.stdout.strip())
+        if r.returncode != 0:
+            return True, 'endtuple with fields filled %s times at %d closed tuples: native builder gives %s %s' % (list(pattern), L, r.stdout.strip(), r.stderr[-200:] if not r.stdout.strip() else ''), payload
+        return False, 'native builder agrees (%s)' % r.stdout.strip(), payload
+    return mdischarge(m, 'TupleBuilder::endtuple fields=%s' % (list(pattern),), obls, [], replay=replay, prefer=[length <= 5],
+                      extra=dict(bounds='%d fields, fill pattern concrete (case split), any tuple count' % k))
+
+
+_jobs_tuple = jobs
+
+
+def jobs(tier):
+    pats = [(1, 1), (0, 1, 0), (1, 2), ()] if tier == 'quick' else [p for n in (0, 1, 2, 3) for p in itertools.product((0, 1, 2), repeat=n)]
+    return _jobs_tuple(tier) + [(h_tuple_endtuple, (p,), 900) for p in pats]
